@@ -13,6 +13,15 @@
 //!     store in each leftover state, with random `RIP_VERIF_DELAY` delays at `auth.*`; the monitor
 //!     counts which processes serve at once, checks `lock.json`/`meta.json` against the server,
 //!     kills the winner with SIGKILL and repeats the round on the same store.
+//! (B2) multi-process, live holder × both recovery paths: stores whose lock belongs to a LIVE party — including the
+//!     mixed-owner leftovers (live lock + dead meta / meta of another live pid / corrupt meta, dead lock + answering
+//!     meta of a live pid, a real `rip serve` SIGSTOPped between acquiring the lock and publishing its endpoint, with
+//!     or without a dead predecessor's meta) — are attacked by `rip` clients (tasks list / threads list / config
+//!     doctor / threads ensure: the client-side recovery loop) alone and together with `rip serve` contenders, under
+//!     random `RIP_VERIF_DELAY`. While the owner lives lock.json must stay byte-identical (polled every few ms; the
+//!     directory is watched for the lock's inode under another name), nobody else may announce an endpoint, the
+//!     owner's meta stays (a foreign meta may only disappear); a resumed holder must serve alone; after the live
+//!     parties are killed an uncontended `rip serve` must come up. One directed batch per run + random batches.
 
 use crate::fixture::Store;
 use crate::prng::{fnv_str, Rng};
@@ -301,6 +310,15 @@ enum Left {
     LivePidLockMeta,
     LiveEndpoint,
     LiveEndpointForeignPid,
+    // mixed-owner leftovers: lock.json and meta.json belong to different parties
+    /// lock of a live pid (an authority that is starting / has not published yet) next to the meta of a dead one
+    LiveLockDeadMeta,
+    /// lock of a live pid next to a meta naming another live pid (unreachable endpoint)
+    LiveLockOtherLiveMeta,
+    /// lock of a live pid next to an empty / half-written / shapeless meta
+    LiveLockCorruptMeta,
+    /// lock of a dead pid next to the meta of a live pid whose endpoint answers
+    DeadLockLiveMetaEndpoint,
 }
 
 const ALL_LEFT: &[Left] = &[
@@ -318,6 +336,10 @@ const ALL_LEFT: &[Left] = &[
     Left::LivePidLockMeta,
     Left::LiveEndpoint,
     Left::LiveEndpointForeignPid,
+    Left::LiveLockDeadMeta,
+    Left::LiveLockOtherLiveMeta,
+    Left::LiveLockCorruptMeta,
+    Left::DeadLockLiveMetaEndpoint,
 ];
 
 impl Left {
@@ -337,13 +359,49 @@ impl Left {
             Left::LivePidLockMeta => "live_pid_lock_and_meta",
             Left::LiveEndpoint => "live_pid_answering_endpoint",
             Left::LiveEndpointForeignPid => "answering_endpoint_pid_not_local",
+            Left::LiveLockDeadMeta => "live_pid_lock_dead_meta",
+            Left::LiveLockOtherLiveMeta => "live_pid_lock_other_live_pid_meta",
+            Left::LiveLockCorruptMeta => "live_pid_lock_corrupt_meta",
+            Left::DeadLockLiveMetaEndpoint => "dead_lock_live_pid_answering_meta",
         }
     }
     fn live(&self) -> bool {
         matches!(
             self,
-            Left::LivePidLock | Left::LivePidLockMeta | Left::LiveEndpoint | Left::LiveEndpointForeignPid
+            Left::LivePidLock
+                | Left::LivePidLockMeta
+                | Left::LiveEndpoint
+                | Left::LiveEndpointForeignPid
+                | Left::LiveLockDeadMeta
+                | Left::LiveLockOtherLiveMeta
+                | Left::LiveLockCorruptMeta
+                | Left::DeadLockLiveMetaEndpoint
         )
+    }
+    /// lock.json carries the pid of a process that is alive (the party nobody may displace is the lock's owner)
+    fn lock_owner_live(&self) -> bool {
+        matches!(
+            self,
+            Left::LivePidLock
+                | Left::LivePidLockMeta
+                | Left::LiveEndpoint
+                | Left::LiveLockDeadMeta
+                | Left::LiveLockOtherLiveMeta
+                | Left::LiveLockCorruptMeta
+        )
+    }
+    /// meta.json is not the live lock owner's file: recovery may remove it (but not replace it while the owner lives)
+    fn meta_may_go(&self) -> bool {
+        matches!(self, Left::LiveLockDeadMeta | Left::LiveLockOtherLiveMeta | Left::LiveLockCorruptMeta)
+    }
+    /// the live authority is known only by its answering endpoint (the lock names a pid that is gone): the code may
+    /// displace it when the endpoint misses a ping, so a takeover is a verdict only on a host that answered promptly
+    fn ping_dependent(&self) -> bool {
+        self.answering() && !self.lock_owner_live()
+    }
+    /// the live party is known by an endpoint that answers (attaching clients succeed at once)
+    fn answering(&self) -> bool {
+        matches!(self, Left::LiveEndpoint | Left::LiveEndpointForeignPid | Left::DeadLockLiveMetaEndpoint)
     }
     /// the corrupt-lock path (1 s grace) is needed before anybody can acquire
     fn corrupt(&self) -> bool {
@@ -361,6 +419,8 @@ impl Left {
 struct Planted {
     dead_pid: Option<u32>,
     sleeper: Option<Child>,
+    /// second live process (the pid named by a foreign live meta)
+    sleeper2: Option<Child>,
     responder: Option<Responder>,
     lock_bytes: Option<Vec<u8>>,
     meta_bytes: Option<Vec<u8>>,
@@ -368,7 +428,7 @@ struct Planted {
 
 impl Drop for Planted {
     fn drop(&mut self) {
-        if let Some(mut c) = self.sleeper.take() {
+        for mut c in [self.sleeper.take(), self.sleeper2.take()].into_iter().flatten() {
             let _ = c.kill();
             let _ = c.wait();
         }
@@ -380,6 +440,10 @@ struct Responder {
     addr: SocketAddr,
     stop: Arc<AtomicBool>,
     thread: Option<std::thread::JoinHandle<()>>,
+    /// worst lag seen on the answering side (ms): gap between two polls of the accept loop, accept → response flushed.
+    /// A contender's ping has a 250 ms budget; when this side alone used up a good part of it, an unanswered ping is
+    /// the host's doing.
+    lag_ms: Arc<std::sync::atomic::AtomicU64>,
 }
 
 impl Responder {
@@ -389,10 +453,18 @@ impl Responder {
         l.set_nonblocking(true).expect("nonblocking");
         let stop = Arc::new(AtomicBool::new(false));
         let stop2 = stop.clone();
+        let lag_ms = Arc::new(std::sync::atomic::AtomicU64::new(0));
+        let lag = lag_ms.clone();
         let thread = std::thread::spawn(move || {
+            let mut last = Instant::now();
             while !stop2.load(Ordering::Relaxed) {
+                let now = Instant::now();
+                lag.fetch_max((now - last).as_millis() as u64, Ordering::Relaxed);
+                last = now;
                 match l.accept() {
                     Ok((mut s, _)) => {
+                        let lag = lag.clone();
+                        let t_acc = Instant::now();
                         std::thread::spawn(move || {
                             let _ = s.set_nonblocking(false);
                             let _ = s.set_read_timeout(Some(Duration::from_millis(500)));
@@ -408,6 +480,7 @@ impl Responder {
                                 b"HTTP/1.1 200 OK\r\ncontent-type: application/json\r\ncontent-length: 2\r\nconnection: close\r\n\r\n{}",
                             );
                             let _ = s.flush();
+                            lag.fetch_max(t_acc.elapsed().as_millis() as u64, Ordering::Relaxed);
                         });
                     }
                     Err(ref e) if e.kind() == std::io::ErrorKind::WouldBlock => std::thread::sleep(Duration::from_millis(1)),
@@ -415,7 +488,7 @@ impl Responder {
                 }
             }
         });
-        Responder { addr, stop, thread: Some(thread) }
+        Responder { addr, stop, thread: Some(thread), lag_ms }
     }
 }
 
@@ -466,7 +539,7 @@ fn plant(left: Left, data: &Path, ws: &Path, rng: &mut Rng) -> Result<Planted, S
     std::fs::create_dir_all(&dir).map_err(|e| e.to_string())?;
     let lock_path = ripd::authority_lock_path(data);
     let meta_path = ripd::authority_meta_path(data);
-    let mut p = Planted { dead_pid: None, sleeper: None, responder: None, lock_bytes: None, meta_bytes: None };
+    let mut p = Planted { dead_pid: None, sleeper: None, sleeper2: None, responder: None, lock_bytes: None, meta_bytes: None };
     let started = 1_700_000_000_000u64 + rng.below(1_000_000);
     let mut lock: Option<Vec<u8>> = None;
     let mut meta: Option<Vec<u8>> = None;
@@ -515,7 +588,14 @@ fn plant(left: Left, data: &Path, ws: &Path, rng: &mut Rng) -> Result<Planted, S
             v.push(0xC3);
             lock = Some(v);
         }
-        Left::LivePidLock | Left::LivePidLockMeta | Left::LiveEndpoint | Left::LiveEndpointForeignPid => {
+        Left::LivePidLock
+        | Left::LivePidLockMeta
+        | Left::LiveEndpoint
+        | Left::LiveEndpointForeignPid
+        | Left::LiveLockDeadMeta
+        | Left::LiveLockOtherLiveMeta
+        | Left::LiveLockCorruptMeta
+        | Left::DeadLockLiveMetaEndpoint => {
             let child = Command::new("sleep")
                 .arg("60")
                 .stdin(Stdio::null())
@@ -538,6 +618,46 @@ fn plant(left: Left, data: &Path, ws: &Path, rng: &mut Rng) -> Result<Planted, S
                     let r = Responder::start();
                     lock = Some(lock_json(live, started, ws));
                     meta = Some(meta_json(&format!("http://{}", r.addr), live, started, ws));
+                    p.responder = Some(r);
+                }
+                Left::LiveLockDeadMeta => {
+                    // e.g. a cleanup that died between renaming the lock and the meta, then a new authority that
+                    // holds the lock and has not published its endpoint yet
+                    let pid = dead_pid(rng).ok_or("no dead pid available")?;
+                    p.dead_pid = Some(pid);
+                    lock = Some(lock_json(live, started, ws));
+                    let drift = if rng.bool() { 0 } else { rng.below(5000) };
+                    meta = Some(meta_json(REFUSED_ENDPOINT, pid, started.saturating_sub(60_000 + drift), ws));
+                }
+                Left::LiveLockOtherLiveMeta => {
+                    let other = Command::new("sleep")
+                        .arg("60")
+                        .stdin(Stdio::null())
+                        .stdout(Stdio::null())
+                        .stderr(Stdio::null())
+                        .spawn()
+                        .map_err(|e| format!("spawn sleep: {e}"))?;
+                    let other_pid = other.id();
+                    p.sleeper2 = Some(other);
+                    lock = Some(lock_json(live, started, ws));
+                    meta = Some(meta_json(REFUSED_ENDPOINT, other_pid, started.saturating_sub(60_000), ws));
+                }
+                Left::LiveLockCorruptMeta => {
+                    lock = Some(lock_json(live, started, ws));
+                    let full = meta_json(REFUSED_ENDPOINT, 4242, started, ws);
+                    meta = Some(match rng.below(4) {
+                        0 => Vec::new(),
+                        1 => full[..1 + rng.usize(full.len() - 2)].to_vec(),
+                        2 => b"{}".to_vec(),
+                        _ => b"null".to_vec(),
+                    });
+                }
+                Left::DeadLockLiveMetaEndpoint => {
+                    let pid = dead_pid(rng).ok_or("no dead pid available")?;
+                    p.dead_pid = Some(pid);
+                    let r = Responder::start();
+                    lock = Some(lock_json(pid, started, ws));
+                    meta = Some(meta_json(&format!("http://{}", r.addr), live, started + rng.below(50), ws));
                     p.responder = Some(r);
                 }
                 _ => {
@@ -934,10 +1054,37 @@ struct CaseOutcome {
     parks_timed_out: Vec<String>,
     parks_fired: u64,
     files_changed: Option<String>,
+    foreign_meta_removed: bool,
+    responder_lag_ms: Option<u64>,
     solo_retry: Option<Result<(), String>>,
     dead_pid_still_dead: bool,
     plant_error: Option<String>,
     wall_ms: u64,
+}
+
+fn lock_inode(data: &Path) -> Option<u64> {
+    use std::os::unix::fs::MetadataExt;
+    std::fs::metadata(ripd::authority_lock_path(data)).ok().map(|m| m.ino())
+}
+
+/// Other names in the authority directory under which the file that was `lock.json` (inode `ino`) lives now:
+/// a rename keeps the inode, so this is the live owner's lock moved aside (a cleanup tombstone), whatever it is called.
+/// Staging / temp files of contenders are other inodes and do not count.
+fn lock_copies(data: &Path, ino: Option<u64>) -> Vec<String> {
+    use std::os::unix::fs::MetadataExt;
+    let Some(ino) = ino else {
+        return Vec::new();
+    };
+    let mut v: Vec<String> = std::fs::read_dir(ripd::authority_dir(data))
+        .map(|rd| {
+            rd.flatten()
+                .filter(|e| e.file_name() != "lock.json" && e.metadata().map(|m| m.ino() == ino).unwrap_or(false))
+                .map(|e| e.file_name().to_string_lossy().to_string())
+                .collect()
+        })
+        .unwrap_or_default();
+    v.sort();
+    v
 }
 
 fn acquire_blocking(data: &Path, ws: &Path) -> Result<ripd::AuthorityLockGuard, String> {
@@ -963,6 +1110,8 @@ fn run_inproc_case(case: &Case, rng: &mut Rng) -> CaseOutcome {
         parks_timed_out: Vec::new(),
         parks_fired: 0,
         files_changed: None,
+        foreign_meta_removed: false,
+        responder_lag_ms: None,
         solo_retry: None,
         dead_pid_still_dead: true,
         plant_error: None,
@@ -975,6 +1124,7 @@ fn run_inproc_case(case: &Case, rng: &mut Rng) -> CaseOutcome {
             return out;
         }
     };
+    let planted_lock_inode = lock_inode(&store.data);
     let mon = Arc::new(Mon::new(ripd::authority_lock_path(&store.data), case.parks.clone(), case.noise_us, rng.next_u64()));
     {
         let m = mon.clone();
@@ -1065,10 +1215,22 @@ fn run_inproc_case(case: &Case, rng: &mut Rng) -> CaseOutcome {
                 lock_now.map(|b| String::from_utf8_lossy(&b).to_string())
             ));
         } else if meta_now != planted.meta_bytes {
-            out.files_changed = Some(format!(
-                "meta.json changed: now {:?}",
-                meta_now.map(|b| String::from_utf8_lossy(&b).to_string())
-            ));
+            if case.left.meta_may_go() && meta_now.is_none() {
+                // the meta is not the live lock owner's file: removing the dead party's leftover is allowed
+                out.foreign_meta_removed = true;
+            } else {
+                out.files_changed = Some(format!(
+                    "meta.json changed: now {:?}",
+                    meta_now.map(|b| String::from_utf8_lossy(&b).to_string())
+                ));
+            }
+        }
+        // renamed copies of the live owner's lock (tombstones) must not appear either
+        if out.files_changed.is_none() && case.left.lock_owner_live() {
+            let extra = lock_copies(&store.data, planted_lock_inode);
+            if !extra.is_empty() {
+                out.files_changed = Some(format!("the live owner's lock.json was moved aside: {extra:?}"));
+            }
         }
     } else if out.acquisitions == 0 && !case.contenders.iter().all(|c| c.foreign_ws) {
         // bounded progress failed inside the loops' own deadline: is the store wedged for good?
@@ -1076,6 +1238,7 @@ fn run_inproc_case(case: &Case, rng: &mut Rng) -> CaseOutcome {
         ROLE.with(|r| r.set(0));
         out.solo_retry = Some(acquire_blocking(&store.data, &store.ws).map(drop));
     }
+    out.responder_lag_ms = planted.responder.as_ref().map(|r| r.lag_ms.load(Ordering::Relaxed));
     drop(planted);
     out.wall_ms = t0.elapsed().as_millis() as u64;
     out
@@ -1138,11 +1301,14 @@ fn judge_inproc(r: &mut Report, idx: u64, case: &Case, out: &CaseOutcome) {
     for inc in &out.incidents {
         by_cause.entry(attribute(&out.trace, inc)).or_default().push(inc);
     }
+    // schedule class: the rendezvous script that produced it, or — no script, contenders run freely under the OS
+    // scheduler (± seeded delays) — "noise", whichever case generator supplied the leftover state
+    let sched_class = if case.parks.is_empty() { "noise" } else { case.mode.as_str() };
     for (cause, incs) in &by_cause {
         let kinds: BTreeSet<&str> = incs.iter().map(|i| i.kind).collect();
         let first = incs[0];
         r.violation(
-            &format!("C18/{cause}/{}", case.mode),
+            &format!("C18/{cause}/{sched_class}"),
             &format!(
                 "{} from leftover state {}: {} (contender {} at {}: {})",
                 kinds.iter().cloned().collect::<Vec<_>>().join(" + "),
@@ -1159,7 +1325,15 @@ fn judge_inproc(r: &mut Report, idx: u64, case: &Case, out: &CaseOutcome) {
         );
         r.count("inproc_incidents", incs.len() as u64);
     }
-    if case.left.live() {
+    let host_slow = case.left.ping_dependent() && out.responder_lag_ms.map(|l| l > 100).unwrap_or(true);
+    if case.left.live() && host_slow && (out.acquisitions > 0 || out.files_changed.is_some()) {
+        r.inconclusive(&format!(
+            "case {idx} ({}): the authority known only by its endpoint was displaced, but the answering side itself lagged {:?} ms (a ping has 250 ms): overloaded host, no verdict",
+            case.left.name(),
+            out.responder_lag_ms
+        ));
+        r.count("inproc_ping_dependent_takeovers_on_slow_host", 1);
+    } else if case.left.live() {
         if out.acquisitions > 0 {
             r.violation(
                 &format!("C18/live_leftover_lock_acquired/{}", case.left.name()),
@@ -1179,6 +1353,10 @@ fn judge_inproc(r: &mut Report, idx: u64, case: &Case, out: &CaseOutcome) {
             );
         }
         r.count("inproc_live_states_nobody_acquired", (out.acquisitions == 0) as u64);
+        if case.left.meta_may_go() || case.left == Left::DeadLockLiveMetaEndpoint {
+            r.count("inproc_mixed_owner_cases", 1);
+            r.count("inproc_mixed_owner_foreign_meta_removed", out.foreign_meta_removed as u64);
+        }
     } else if out.acquisitions == 0 {
         match &out.solo_retry {
             Some(Err(e)) if out.dead_pid_still_dead => {
@@ -1209,7 +1387,10 @@ fn judge_inproc(r: &mut Report, idx: u64, case: &Case, out: &CaseOutcome) {
 
 // directed schedules ---------------------------------------------------------------------------
 
-const N_DIRECTED: u64 = 15;
+/// in-process directed schedules
+const N_DIRECTED: u64 = 19;
+/// case index of the directed multi-process batch "clients and servers on every live / mixed-owner leftover"
+const MIXED_BATCH_CASE: u64 = N_DIRECTED;
 
 fn directed_case(k: u64) -> Case {
     let a = 1usize;
@@ -1330,6 +1511,15 @@ fn directed_case(k: u64) -> Case {
                 directed: true,
             }
         }
+        // mixed-owner leftovers (lock and meta of different parties) under contention
+        15..=18 => {
+            let left = [Left::LiveLockDeadMeta, Left::LiveLockOtherLiveMeta, Left::LiveLockCorruptMeta, Left::DeadLockLiveMetaEndpoint][(k - 15) as usize];
+            let mut contenders: Vec<CSpec> = (1..=6).map(contender).collect();
+            contenders[1].attempts = 2;
+            contenders[1].gap_ms = 15;
+            contenders[4].start_ms = 20;
+            Case { mode: "six_contenders_on_mixed_owner_leftover".into(), left, contenders, parks: vec![], noise_us: 1500, directed: true }
+        }
         // the grace period must protect an acquirer that is slow, but faster than 1 s
         10 => {
             let mut ca = contender(a);
@@ -1391,6 +1581,11 @@ fn noise_case(rng: &mut Rng, cfg: &Cfg) -> Case {
             Left::LivePidLockMeta,
             Left::LiveEndpoint,
             Left::LiveEndpointForeignPid,
+            Left::LiveLockDeadMeta,
+            Left::LiveLockDeadMeta,
+            Left::LiveLockOtherLiveMeta,
+            Left::LiveLockCorruptMeta,
+            Left::DeadLockLiveMetaEndpoint,
         ])
     };
     let n = match rng.below(4) {
@@ -1534,8 +1729,15 @@ fn serve_cmd(bin: &Path, data: &Path, ws: &Path, delay: &str) -> Command {
 }
 
 fn client_cmd(bin: &Path, data: &Path, ws: &Path, delay: &str) -> Command {
+    client_cmd_args(bin, data, ws, delay, &["tasks", "list"])
+}
+
+/// every `rip` command without `--server` runs the client-side recovery loop (`ensure_local_authority`) first
+const CLIENT_CMDS: &[&[&str]] = &[&["tasks", "list"], &["threads", "list"], &["config", "doctor"], &["threads", "ensure"]];
+
+fn client_cmd_args(bin: &Path, data: &Path, ws: &Path, delay: &str, args: &[&str]) -> Command {
     let mut c = Command::new(bin);
-    c.args(["tasks", "list"])
+    c.args(args)
         .env("RIP_DATA_DIR", data)
         .env("RIP_WORKSPACE_ROOT", ws)
         .env("RIP_VERIF_TRACE", mp_trace_path(data))
@@ -1837,7 +2039,768 @@ fn mp_stopped_incumbent_case(r: &mut Report, idx: u64, rng: &mut Rng, bin: &Path
     inc.finish();
 }
 
+// ---------------------------------------------------------------------------------------------
+// (B2) multi-process: clients and servers against a store whose lock belongs to a LIVE party, including the
+// mixed-owner leftovers (lock.json and meta.json of different parties). Both recovery paths run on the real binary:
+// the server loop (`rip serve`) and the client loop (`rip tasks list` / `threads list` / `config doctor` / …).
+// Oracle: while the lock's owner lives, lock.json stays byte-identical (polled every few ms, plus the directory is
+// watched for renamed copies), nobody else announces an endpoint, a meta that is the owner's stays, a foreign meta
+// may only disappear; once the live parties are killed a plain `rip serve` must come up again.
+
+#[derive(Clone, Copy, Debug, PartialEq, Eq)]
+enum Holder {
+    /// planted files; the live pids are sleeper processes, an answering endpoint is a responder thread
+    Planted(Left),
+    /// a real `rip serve` stopped (SIGSTOP) after it acquired lock.json and before it published meta.json;
+    /// `dead_meta`: the endpoint file of a crashed predecessor is still lying around
+    StartingServe { dead_meta: bool },
+}
+
+impl Holder {
+    fn name(&self) -> &'static str {
+        match self {
+            Holder::Planted(l) => l.name(),
+            Holder::StartingServe { dead_meta: true } => "starting_rip_serve_lock_beside_dead_meta",
+            Holder::StartingServe { dead_meta: false } => "starting_rip_serve_lock_no_meta_yet",
+        }
+    }
+    fn lock_owner_live(&self) -> bool {
+        match self {
+            Holder::Planted(l) => l.lock_owner_live(),
+            Holder::StartingServe { .. } => true,
+        }
+    }
+    fn meta_may_go(&self) -> bool {
+        match self {
+            Holder::Planted(l) => l.meta_may_go(),
+            Holder::StartingServe { dead_meta } => *dead_meta,
+        }
+    }
+    fn answering(&self) -> bool {
+        match self {
+            Holder::Planted(l) => l.answering(),
+            Holder::StartingServe { .. } => false,
+        }
+    }
+}
+
+/// mixed-owner holders first (each is run with clients alone and with clients + servers in the directed batch)
+const MIXED_HOLDERS: &[Holder] = &[
+    Holder::Planted(Left::LiveLockDeadMeta),
+    Holder::Planted(Left::LiveLockOtherLiveMeta),
+    Holder::Planted(Left::LiveLockCorruptMeta),
+    Holder::Planted(Left::DeadLockLiveMetaEndpoint),
+    Holder::StartingServe { dead_meta: true },
+    Holder::StartingServe { dead_meta: false },
+];
+const SAME_OWNER_LIVE_HOLDERS: &[Holder] = &[
+    Holder::Planted(Left::LivePidLock),
+    Holder::Planted(Left::LivePidLockMeta),
+    Holder::Planted(Left::LiveEndpoint),
+    Holder::Planted(Left::LiveEndpointForeignPid),
+];
+
+#[derive(Clone, Debug)]
+struct MixedProc {
+    serve: bool,
+    start_ms: u64,
+    delay: String,
+    cmd: usize,
+}
+
+#[derive(Clone, Debug)]
+struct MixedSpec {
+    holder: Holder,
+    procs: Vec<MixedProc>,
+    window_ms: u64,
+    plant_seed: u64,
+}
+
+fn mixed_spec(holder: Holder, n_cli: usize, with_serve: bool, window_ms: u64, rng: &mut Rng) -> MixedSpec {
+    let mut procs = Vec::new();
+    for k in 0..n_cli {
+        procs.push(MixedProc {
+            serve: false,
+            start_ms: if k == 0 { 0 } else { rng.below(window_ms / 3 + 1) },
+            delay: random_delay_spec(rng),
+            cmd: rng.usize(CLIENT_CMDS.len()),
+        });
+    }
+    if with_serve {
+        let n_serve = 2 + rng.usize(3);
+        for k in 0..n_serve {
+            // one contender right away, one well after the first recovery steps of the others, the rest anywhere
+            let start_ms = match k {
+                0 => rng.below(10),
+                1 => 600 + rng.below(window_ms / 3 + 1),
+                _ => rng.below(window_ms * 2 / 3 + 1),
+            };
+            procs.push(MixedProc { serve: true, start_ms, delay: random_delay_spec(rng), cmd: 0 });
+        }
+    }
+    procs.sort_by_key(|p| p.start_ms);
+    MixedSpec { holder, procs, window_ms, plant_seed: rng.next_u64() }
+}
+
+#[derive(Debug)]
+enum Usable {
+    Yes,
+    /// the uncontended `rip serve` exited without serving
+    GaveUp(String),
+    /// still starting when the watchdog fired (slow host): no verdict
+    Slow,
+}
+
+#[derive(Default)]
+struct MixedOutcome {
+    state: String,
+    setup_error: Option<String>,
+    lock_pid: Option<u32>,
+    live_pids: Vec<u32>,
+    /// the stopped `rip serve` had already written its meta.json when the SIGSTOP arrived
+    holder_published_before_stop: bool,
+    lock_before: Option<Vec<u8>>,
+    meta_before: Option<Vec<u8>>,
+    lock_after: Option<Vec<u8>>,
+    meta_after: Option<Vec<u8>>,
+    lock_polls: u64,
+    /// (ms since the first contender started, what lock.json was then)
+    lock_change: Option<(u64, String)>,
+    tombstones: Vec<String>,
+    /// (who, announced endpoint)
+    usurpers: Vec<(String, String)>,
+    n_cli: usize,
+    n_serve: usize,
+    cli_ok: usize,
+    cli_err: usize,
+    cli_retrying_at_end: usize,
+    serve_refused: usize,
+    serve_pending: usize,
+    cli_stderr: Vec<String>,
+    probes: u64,
+    probes_failed: u64,
+    probe_max_ms: u64,
+    responder_lag_ms: u64,
+    live_parties_alive_at_end: bool,
+    /// (who, hook point) of the first lock-removing step recorded by the processes themselves
+    taker: Option<(&'static str, String)>,
+    // after SIGCONT (StartingServe only)
+    resumed: bool,
+    resume_problem: Option<String>,
+    resume_lock_same: bool,
+    resume_meta_names_holder: bool,
+    resume_client_exit: Option<i32>,
+    resume_late_contenders: usize,
+    // after the live parties were killed
+    pid_reused: bool,
+    usable: Option<Usable>,
+    trace_tail: Vec<String>,
+    wall_ms: u64,
+}
+
+fn show_bytes(b: &Option<Vec<u8>>) -> String {
+    match b {
+        None => "<absent>".to_string(),
+        Some(b) => String::from_utf8_lossy(b).chars().take(300).collect(),
+    }
+}
+
+fn same_json(a: &Option<Vec<u8>>, b: &Option<Vec<u8>>) -> bool {
+    let parse = |x: &Option<Vec<u8>>| x.as_ref().and_then(|b| serde_json::from_slice::<Value>(b).ok());
+    match (parse(a), parse(b)) {
+        (Some(x), Some(y)) => x == y,
+        _ => false,
+    }
+}
+
+fn json_pid(b: &Option<Vec<u8>>) -> Option<u32> {
+    b.as_ref()
+        .and_then(|b| serde_json::from_slice::<Value>(b).ok())
+        .and_then(|v| v.get("pid").and_then(|x| x.as_u64()))
+        .map(|p| p as u32)
+}
+
+fn read_trace(data: &Path) -> Vec<(u32, u128, String)> {
+    let text = std::fs::read_to_string(mp_trace_path(data)).unwrap_or_default();
+    let mut ev = Vec::new();
+    for l in text.lines() {
+        let mut it = l.split(' ');
+        if let (Some(p), Some(t), Some(n)) = (it.next(), it.next(), it.next()) {
+            if let (Ok(p), Ok(t)) = (p.parse::<u32>(), t.parse::<u128>()) {
+                ev.push((p, t, n.to_string()));
+            }
+        }
+    }
+    ev
+}
+
+/// Who took a lock away, according to the hook trace the processes wrote themselves?
+fn mixed_taker(data: &Path, clients: &[u32], serves: &[u32]) -> Option<(&'static str, String)> {
+    read_trace(data).into_iter().find(|e| TAKE_POINTS.iter().any(|(p, _)| *p == e.2)).map(|(pid, _, point)| {
+        let who = if clients.contains(&pid) {
+            "client"
+        } else if serves.contains(&pid) {
+            "rip_serve"
+        } else {
+            "client_spawned_authority"
+        };
+        (who, point)
+    })
+}
+
+/// an authority spawned by a client that outlived its process group kill (belt and braces)
+fn kill_stray_authority(data: &Path, ws: &Path, ours: &[u32]) {
+    if let Some(p) = json_pid(&std::fs::read(ripd::authority_meta_path(data)).ok()) {
+        let lock_ws = std::fs::read(ripd::authority_lock_path(data))
+            .ok()
+            .and_then(|b| serde_json::from_slice::<Value>(&b).ok())
+            .and_then(|v| v.get("workspace_root").and_then(|x| x.as_str()).map(|s| s.to_string()));
+        if lock_ws.as_deref() == Some(ws.to_string_lossy().as_ref()) && !ours.contains(&p) {
+            if let Ok(cmdline) = std::fs::read(format!("/proc/{p}/cmdline")) {
+                let c = String::from_utf8_lossy(&cmdline).to_string();
+                if c.contains("serve") && c.contains("rip") {
+                    kill_pid(p, libc::SIGKILL);
+                }
+            }
+        }
+    }
+}
+
+fn run_mixed_store(bin: &Path, spec: &MixedSpec) -> MixedOutcome {
+    let t_all = Instant::now();
+    let mut rng = Rng::new(spec.plant_seed);
+    let store = Store::new("c18mx");
+    let lock_path = ripd::authority_lock_path(&store.data);
+    let meta_path = ripd::authority_meta_path(&store.data);
+    let mut o = MixedOutcome { state: spec.holder.name().to_string(), ..Default::default() };
+    let mut planted: Option<Planted> = None;
+    let mut holder_proc: Option<Proc> = None;
+    let mut responder_addr: Option<String> = None;
+    let mut dead_pids: Vec<u32> = Vec::new();
+    match spec.holder {
+        Holder::Planted(left) => match plant(left, &store.data, &store.ws, &mut rng) {
+            Ok(p) => {
+                o.live_pids = [p.sleeper.as_ref().map(|c| c.id()), p.sleeper2.as_ref().map(|c| c.id())].into_iter().flatten().collect();
+                responder_addr = p.responder.as_ref().map(|r| r.addr.to_string());
+                dead_pids.extend(p.dead_pid);
+                planted = Some(p);
+            }
+            Err(e) => {
+                o.setup_error = Some(format!("could not plant {}: {e}", left.name()));
+                return o;
+            }
+        },
+        Holder::StartingServe { dead_meta } => {
+            let _ = std::fs::create_dir_all(ripd::authority_dir(&store.data));
+            if dead_meta {
+                let Some(pid) = dead_pid(&mut rng) else {
+                    o.setup_error = Some("no dead pid available".into());
+                    return o;
+                };
+                dead_pids.push(pid);
+                let started = 1_700_000_000_000u64 + rng.below(1_000_000);
+                let _ = std::fs::write(&meta_path, meta_json(REFUSED_ENDPOINT, pid, started, &store.ws));
+            }
+            // the hook delay right after the record was written widens the window in which the SIGSTOP must land
+            let mut p = match Proc::spawn(serve_cmd(bin, &store.data, &store.ws, "auth.written=300000")) {
+                Ok(p) => p,
+                Err(e) => {
+                    o.setup_error = Some(format!("cannot spawn {}: {e}", bin.display()));
+                    return o;
+                }
+            };
+            // stop it once its own hook trace says the record is complete (a record that merely parses may still be
+            // missing its tail: the holder would finish it after SIGCONT and lock.json would differ for a good reason)
+            let t0 = Instant::now();
+            let mut got = false;
+            while t0.elapsed() < Duration::from_secs(8) && p.alive() {
+                if read_trace(&store.data).iter().any(|(pid, _, point)| *pid == p.pid && point == "auth.written")
+                    && json_pid(&std::fs::read(&lock_path).ok()) == Some(p.pid)
+                {
+                    got = true;
+                    break;
+                }
+                std::thread::sleep(Duration::from_micros(300));
+            }
+            if !got {
+                o.setup_error = Some("the holder `rip serve` did not write its lock record within the watchdog".into());
+                p.finish();
+                return o;
+            }
+            kill_pid(p.pid, libc::SIGSTOP);
+            std::thread::sleep(Duration::from_millis(25));
+            if json_pid(&std::fs::read(&meta_path).ok()) == Some(p.pid) || p.listening().is_some() {
+                o.holder_published_before_stop = true;
+                o.state = "rip_serve_stopped_after_publishing".to_string();
+            }
+            o.live_pids = vec![p.pid];
+            holder_proc = Some(p);
+        }
+    }
+    o.lock_before = std::fs::read(&lock_path).ok();
+    o.meta_before = std::fs::read(&meta_path).ok();
+    o.lock_pid = json_pid(&o.lock_before);
+    let lock_ino = lock_inode(&store.data);
+    let answering = spec.holder.answering();
+
+    // ---- phase 1: contenders run their recovery loops while the live parties live
+    let mut procs: Vec<(Proc, bool)> = Vec::new();
+    let mut groups: Vec<u32> = Vec::new();
+    let mut next = 0usize;
+    let t0 = Instant::now();
+    let mut last_probe: Option<Instant> = None;
+    let mut idle_since: Option<Instant> = None;
+    loop {
+        let el_ms = t0.elapsed().as_millis() as u64;
+        while next < spec.procs.len() && el_ms >= spec.procs[next].start_ms {
+            let sp = &spec.procs[next];
+            next += 1;
+            let cmd = if sp.serve {
+                serve_cmd(bin, &store.data, &store.ws, &sp.delay)
+            } else {
+                client_cmd_args(bin, &store.data, &store.ws, &sp.delay, CLIENT_CMDS[sp.cmd % CLIENT_CMDS.len()])
+            };
+            if let Ok(p) = Proc::spawn(cmd) {
+                if sp.serve {
+                    o.n_serve += 1;
+                } else {
+                    o.n_cli += 1;
+                    groups.push(p.pid);
+                }
+                procs.push((p, sp.serve));
+            }
+        }
+        let now = std::fs::read(&lock_path).ok();
+        o.lock_polls += 1;
+        if now != o.lock_before && o.lock_change.is_none() {
+            o.lock_change = Some((el_ms, show_bytes(&now)));
+        }
+        for n in lock_copies(&store.data, lock_ino) {
+            if !o.tombstones.contains(&n) && o.tombstones.len() < 8 {
+                o.tombstones.push(n);
+            }
+        }
+        let mut pending = 0;
+        for (p, serve) in procs.iter_mut() {
+            let alive = p.alive();
+            if *serve {
+                if let Some(e) = p.listening() {
+                    if !o.usurpers.iter().any(|(_, x)| *x == e) {
+                        o.usurpers.push((format!("rip serve pid {}", p.pid), e));
+                    }
+                } else if alive {
+                    pending += 1;
+                }
+            } else if alive {
+                pending += 1;
+            }
+        }
+        if let (true, Some(addr)) = (answering, responder_addr.as_ref()) {
+            // is an unanswered ping of a contender explainable by the host? Measure what a ping costs right now.
+            if last_probe.map(|t| t.elapsed() >= Duration::from_millis(100)).unwrap_or(true) {
+                let t = Instant::now();
+                let ok = http_exchange(addr, "GET", "/openapi.json", None, Duration::from_millis(250), None).map(|r| r.status == 200).unwrap_or(false);
+                o.probes += 1;
+                o.probes_failed += (!ok) as u64;
+                o.probe_max_ms = o.probe_max_ms.max(t.elapsed().as_millis() as u64);
+                last_probe = Some(Instant::now());
+            }
+        }
+        if next == spec.procs.len() && pending == 0 {
+            let since = *idle_since.get_or_insert_with(Instant::now);
+            if since.elapsed() >= Duration::from_millis(150) {
+                break;
+            }
+        } else {
+            idle_since = None;
+        }
+        if el_ms >= spec.window_ms {
+            break;
+        }
+        std::thread::sleep(Duration::from_millis(4));
+    }
+    o.lock_after = std::fs::read(&lock_path).ok();
+    o.meta_after = std::fs::read(&meta_path).ok();
+    if o.lock_after != o.lock_before && o.lock_change.is_none() {
+        o.lock_change = Some((t0.elapsed().as_millis() as u64, show_bytes(&o.lock_after)));
+    }
+    for ep in logged_endpoints(&store.data) {
+        o.usurpers.push(("authority spawned by a client".to_string(), ep));
+    }
+    o.live_parties_alive_at_end = match holder_proc.as_mut() {
+        Some(h) => h.alive(),
+        None => o.live_pids.iter().all(|p| ripd::pid_liveness(*p) == ripd::PidLiveness::Alive),
+    };
+    let mut client_pids = Vec::new();
+    let mut serve_pids = Vec::new();
+    for (p, serve) in procs.iter_mut() {
+        let alive = p.alive();
+        if *serve {
+            serve_pids.push(p.pid);
+            if p.listening().is_none() {
+                if alive {
+                    o.serve_pending += 1;
+                } else {
+                    o.serve_refused += 1;
+                }
+            }
+        } else {
+            client_pids.push(p.pid);
+            if alive {
+                o.cli_retrying_at_end += 1;
+            } else if p.exit == Some(0) {
+                o.cli_ok += 1;
+            } else {
+                o.cli_err += 1;
+                if o.cli_stderr.len() < 2 {
+                    o.cli_stderr.push(p.stderr_text().chars().take(240).collect());
+                }
+            }
+        }
+    }
+    for g in &groups {
+        kill_group(*g, libc::SIGKILL);
+    }
+    o.taker = mixed_taker(&store.data, &client_pids, &serve_pids);
+    let clean = o.lock_change.is_none() && o.tombstones.is_empty() && o.usurpers.is_empty() && o.live_parties_alive_at_end;
+
+    // ---- phase 2 (real holder only): it goes on, publishes its endpoint and must be the one authority
+    let mut late: Vec<Proc> = Vec::new();
+    if let (Some(h), true) = (holder_proc.as_mut(), clean) {
+        kill_pid(h.pid, libc::SIGCONT);
+        let t1 = Instant::now();
+        while h.listening().is_none() && h.alive() && t1.elapsed() < Duration::from_secs(10) {
+            std::thread::sleep(Duration::from_millis(4));
+        }
+        match h.listening() {
+            None => {
+                o.resume_problem = Some(format!(
+                    "the holder did not come up after SIGCONT (alive={}): {}",
+                    h.alive(),
+                    h.stderr_text().lines().last().unwrap_or("").chars().take(200).collect::<String>()
+                ))
+            }
+            Some(ep) => {
+                o.resumed = true;
+                let t2 = Instant::now();
+                while json_pid(&std::fs::read(&meta_path).ok()) != Some(h.pid) && t2.elapsed() < Duration::from_secs(3) {
+                    std::thread::sleep(Duration::from_millis(3));
+                }
+                for _ in 0..2 {
+                    if let Ok(p) = Proc::spawn(serve_cmd(bin, &store.data, &store.ws, &random_delay_spec(&mut rng))) {
+                        serve_pids.push(p.pid);
+                        late.push(p);
+                    }
+                }
+                o.resume_late_contenders = late.len();
+                let mut cl = Proc::spawn(client_cmd(bin, &store.data, &store.ws, "")).ok();
+                if let Some(c) = cl.as_ref() {
+                    groups.push(c.pid);
+                    client_pids.push(c.pid);
+                }
+                let t3 = Instant::now();
+                loop {
+                    let mut pending = 0;
+                    for p in late.iter_mut() {
+                        if p.alive() && p.listening().is_none() {
+                            pending += 1;
+                        }
+                    }
+                    if let Some(c) = cl.as_mut() {
+                        if c.alive() {
+                            pending += 1;
+                        }
+                    }
+                    if pending == 0 || t3.elapsed() >= Duration::from_secs(12) {
+                        break;
+                    }
+                    std::thread::sleep(Duration::from_millis(5));
+                }
+                for p in late.iter_mut() {
+                    if let Some(e) = p.listening() {
+                        o.usurpers.push((format!("rip serve pid {} (started after the holder resumed)", p.pid), e));
+                    }
+                }
+                for e in logged_endpoints(&store.data) {
+                    o.usurpers.push(("authority spawned by a client (after the holder resumed)".to_string(), e));
+                }
+                let lock_now = std::fs::read(&lock_path).ok();
+                o.resume_lock_same = same_json(&lock_now, &o.lock_before);
+                if !o.resume_lock_same {
+                    o.lock_change = Some((t0.elapsed().as_millis() as u64, show_bytes(&lock_now)));
+                }
+                o.resume_meta_names_holder = json_pid(&std::fs::read(&meta_path).ok()) == Some(h.pid);
+                if let Some(c) = cl.as_mut() {
+                    if !c.alive() {
+                        o.resume_client_exit = c.exit;
+                    }
+                    kill_group(c.pid, libc::SIGKILL);
+                    c.finish();
+                }
+                if !h.alive() {
+                    o.resume_problem = Some("the holder exited after it had resumed".into());
+                } else if !openapi_reachable(&ep) && !openapi_reachable(&ep) {
+                    o.resume_problem = Some("the resumed holder did not answer /openapi.json (overloaded host?)".into());
+                }
+                o.taker = mixed_taker(&store.data, &client_pids, &serve_pids);
+            }
+        }
+    }
+    let clean = clean && o.lock_change.is_none() && o.usurpers.is_empty();
+    o.trace_tail = read_trace(&store.data).iter().rev().take(60).rev().map(|(p, t, n)| format!("{p} {t} {n}")).collect();
+
+    // ---- phase 3: the live parties are killed and reaped; the store must become usable again
+    o.responder_lag_ms = planted.as_ref().and_then(|p| p.responder.as_ref()).map(|r| r.lag_ms.load(Ordering::Relaxed)).unwrap_or(0);
+    drop(planted);
+    if let Some(h) = holder_proc.as_mut() {
+        kill_pid(h.pid, libc::SIGCONT);
+        h.finish();
+    }
+    for (p, _) in procs.iter_mut() {
+        p.finish();
+    }
+    for p in late.iter_mut() {
+        p.finish();
+    }
+    o.pid_reused = o.live_pids.iter().chain(dead_pids.iter()).any(|p| ripd::pid_liveness(*p) != ripd::PidLiveness::Dead);
+    if clean && !o.pid_reused {
+        match Proc::spawn(serve_cmd(bin, &store.data, &store.ws, "")) {
+            Ok(mut p) => {
+                let t4 = Instant::now();
+                while p.listening().is_none() && p.alive() && t4.elapsed() < Duration::from_secs(10) {
+                    std::thread::sleep(Duration::from_millis(5));
+                }
+                o.usable = Some(if p.listening().is_some() {
+                    Usable::Yes
+                } else if p.alive() {
+                    Usable::Slow
+                } else {
+                    let t = p.stderr_text();
+                    Usable::GaveUp(t.lines().find(|l| l.contains("authority")).or_else(|| t.lines().last()).unwrap_or("").chars().take(300).collect())
+                });
+                serve_pids.push(p.pid);
+                p.finish();
+            }
+            Err(_) => o.usable = Some(Usable::Slow),
+        }
+    }
+    for g in &groups {
+        kill_group(*g, libc::SIGKILL);
+    }
+    let mut ours = client_pids.clone();
+    ours.extend(serve_pids.iter().copied());
+    kill_stray_authority(&store.data, &store.ws, &ours);
+    o.wall_ms = t_all.elapsed().as_millis() as u64;
+    o
+}
+
+fn judge_mixed(r: &mut Report, idx: u64, k: usize, spec: &MixedSpec, o: &MixedOutcome) {
+    if let Some(e) = &o.setup_error {
+        r.inconclusive(&format!("case {idx} store {k} ({}): {e}", o.state));
+        return;
+    }
+    let state = o.state.as_str();
+    r.eval();
+    r.count("mp_mixed_stores", 1);
+    r.count(&format!("mp_mixed_stores_from_{state}"), 1);
+    r.count("mp_mixed_clients", o.n_cli as u64);
+    r.count("mp_mixed_serve_contenders", o.n_serve as u64);
+    r.count("mp_mixed_lock_byte_checks_while_holder_alive", o.lock_polls);
+    r.count("mp_mixed_clients_still_retrying_at_window_end", o.cli_retrying_at_end as u64);
+    r.count("mp_mixed_clients_exited_ok", o.cli_ok as u64);
+    r.count("mp_mixed_clients_exited_with_error", o.cli_err as u64);
+    r.count("mp_mixed_serve_contenders_refused", o.serve_refused as u64);
+    r.count("mp_mixed_responder_probes", o.probes);
+    let published = o.holder_published_before_stop;
+    let meta_may_go = spec.holder.meta_may_go() && !published;
+    let meta_shape = if o.meta_after == o.meta_before {
+        "meta_same"
+    } else if o.meta_after.is_none() {
+        "meta_removed"
+    } else {
+        "meta_changed"
+    };
+    r.distinct_str(&format!(
+        "mpmix|{state}|cli{}|serve{}|{meta_shape}|ok{}err{}wait{}|resumed{}|usable{}",
+        o.n_cli,
+        o.n_serve.min(4),
+        o.cli_ok,
+        o.cli_err,
+        o.cli_retrying_at_end,
+        o.resumed,
+        matches!(o.usable, Some(Usable::Yes))
+    ));
+    let witness = json!({
+        "case": idx, "part": "multi_process_mixed", "store": k, "leftover": state,
+        "contenders": spec.procs.iter().map(|p| if p.serve {
+            format!("rip serve @{}ms delay[{}]", p.start_ms, p.delay)
+        } else {
+            format!("rip {} @{}ms delay[{}]", CLIENT_CMDS[p.cmd % CLIENT_CMDS.len()].join(" "), p.start_ms, p.delay)
+        }).collect::<Vec<_>>(),
+        "window_ms": spec.window_ms,
+        "lock_owner_pid": o.lock_pid, "live_pids": o.live_pids,
+        "lock_before": show_bytes(&o.lock_before), "lock_after": show_bytes(&o.lock_after),
+        "meta_before": show_bytes(&o.meta_before), "meta_after": show_bytes(&o.meta_after),
+        "lock_first_seen_changed": o.lock_change.as_ref().map(|(ms, now)| json!({"after_ms": ms, "lock.json": now})),
+        "lock_file_seen_moved_aside_as": o.tombstones,
+        "second_authorities": o.usurpers,
+        "lock_removing_step_in_hook_trace": o.taker.as_ref().map(|(w, p)| format!("{p} by {w}")),
+        "clients": {"exited_ok": o.cli_ok, "exited_with_error": o.cli_err, "still_retrying": o.cli_retrying_at_end, "stderr": o.cli_stderr},
+        "serve_contenders_refused": o.serve_refused,
+        "resumed": o.resumed, "resume_problem": o.resume_problem,
+        "responder_probes": {"n": o.probes, "failed": o.probes_failed, "max_ms": o.probe_max_ms, "answering_side_lag_ms": o.responder_lag_ms},
+        "hook_trace_tail": o.trace_tail,
+    });
+    if !o.live_parties_alive_at_end {
+        r.inconclusive(&format!("case {idx} store {k} ({state}): a live party of the planted state died during the window"));
+        return;
+    }
+    // an authority known only by its answering endpoint (lock of a dead / foreign pid) may legitimately be displaced
+    // when its endpoint does not answer a contender's ping in time: judge that only on a host that answered promptly
+    let ping_dependent = spec.holder.answering() && !spec.holder.lock_owner_live();
+    let host_slow = ping_dependent && (o.probes == 0 || o.probes_failed > 0 || o.probe_max_ms > 100 || o.responder_lag_ms > 100);
+    let who = o.taker.as_ref().map(|(w, _)| *w).unwrap_or("unattributed");
+    let mut bad = false;
+    if o.lock_change.is_some() || !o.tombstones.is_empty() {
+        bad = true;
+        if host_slow {
+            r.inconclusive(&format!("case {idx} store {k} ({state}): lock replaced, but the answering endpoint itself was slow (max {} ms, {} failed probes)", o.probe_max_ms, o.probes_failed));
+        } else {
+            let (ms, now) = o.lock_change.clone().unwrap_or((0, format!("moved aside as {:?}", o.tombstones)));
+            r.violation(
+                &format!("C18/live_lock_taken_by_{who}/{state}/multi_process"),
+                &format!(
+                    "lock.json of a store whose authority is alive ({state}; lock owner pid {:?}, live pids {:?}) was taken away {} ms after contenders started \
+                     ({} clients, {} rip serve): it now is {}; lock-removing step in the processes' own hook trace: {}; second authorities: {:?}",
+                    o.lock_pid,
+                    o.live_pids,
+                    ms,
+                    o.n_cli,
+                    o.n_serve,
+                    now.trim(),
+                    o.taker.as_ref().map(|(w, p)| format!("{p} by {w}")).unwrap_or_else(|| "none recorded".into()),
+                    o.usurpers
+                ),
+                witness.clone(),
+            );
+            r.count("mp_mixed_live_lock_taken", 1);
+        }
+    } else if !o.usurpers.is_empty() {
+        bad = true;
+        if host_slow {
+            r.inconclusive(&format!("case {idx} store {k} ({state}): second authority, but the answering endpoint itself was slow"));
+        } else {
+            r.violation(
+                &format!("C18/second_authority_beside_live_holder/{state}/multi_process"),
+                &format!("{:?} announced an endpoint on a store whose authority is alive ({state}; live pids {:?}) although lock.json was not seen changing", o.usurpers, o.live_pids),
+                witness.clone(),
+            );
+        }
+    }
+    if !bad && o.meta_after != o.meta_before {
+        if meta_may_go && o.meta_after.is_none() {
+            r.count("mp_mixed_foreign_meta_removed", 1);
+        } else if !host_slow {
+            bad = true;
+            r.violation(
+                &format!("C18/live_leftover_files_changed/{state}/multi_process"),
+                &format!("meta.json next to the lock of a live authority ({state}) was {}: before {:?}, after {:?}", if o.meta_after.is_none() { "removed" } else { "replaced" }, show_bytes(&o.meta_before), show_bytes(&o.meta_after)),
+                witness.clone(),
+            );
+        }
+    }
+    if bad {
+        return;
+    }
+    r.count("mp_mixed_stores_live_lock_kept", 1);
+    if matches!(spec.holder, Holder::StartingServe { .. }) {
+        match (&o.resume_problem, o.resumed) {
+            (Some(p), _) => r.inconclusive(&format!("case {idx} store {k} ({state}): {p}")),
+            (None, true) => {
+                r.count("mp_mixed_holder_resumed_and_served_alone", 1);
+                r.count("mp_mixed_late_contenders_after_resume", o.resume_late_contenders as u64);
+                r.count("mp_mixed_client_attached_to_resumed_holder", (o.resume_client_exit == Some(0)) as u64);
+                if !o.resume_meta_names_holder {
+                    r.violation(
+                        &format!("C18/live_leftover_files_changed/{state}/multi_process"),
+                        "meta.json does not name the one live authority after it published its endpoint",
+                        witness.clone(),
+                    );
+                    return;
+                }
+            }
+            _ => {}
+        }
+    }
+    match &o.usable {
+        Some(Usable::Yes) => r.count("mp_mixed_usable_again_after_holder_killed", 1),
+        Some(Usable::GaveUp(tail)) => r.violation(
+            &format!("C18/not_usable_again/{state}/multi_process"),
+            &format!("after the live parties of leftover {state} were killed an uncontended rip serve gave up: {tail}"),
+            witness.clone(),
+        ),
+        Some(Usable::Slow) => r.inconclusive(&format!("case {idx} store {k} ({state}): uncontended rip serve still starting when the watchdog fired")),
+        None if o.pid_reused => r.inconclusive(&format!("case {idx} store {k} ({state}): a killed pid was re-used before the usability check")),
+        None => {}
+    }
+    if r.samples.len() < r.max_samples && k == 0 {
+        r.sample(witness);
+    }
+}
+
+/// Run several stores at once (a correct client facing a live lock it cannot reach retries until its own 8 s deadline).
+fn mp_mixed_batch(r: &mut Report, idx: u64, bin: &Path, specs: Vec<MixedSpec>) {
+    let outcomes: Vec<Option<MixedOutcome>> = std::thread::scope(|s| {
+        let hs: Vec<_> = specs.iter().map(|sp| s.spawn(move || run_mixed_store(bin, sp))).collect();
+        hs.into_iter().map(|h| h.join().ok()).collect()
+    });
+    for (k, (sp, o)) in specs.iter().zip(outcomes.iter()).enumerate() {
+        match o {
+            Some(o) => judge_mixed(r, idx, k, sp, o),
+            None => r.inconclusive(&format!("case {idx} store {k}: monitor thread panicked")),
+        }
+    }
+}
+
+/// directed: every mixed-owner holder with clients alone and with clients + servers, every same-owner live holder once
+fn mp_mixed_directed(r: &mut Report, cfg: &Cfg, idx: u64, rng: &mut Rng, bin: &Path) {
+    let window_ms = 9_500;
+    let mut specs = Vec::new();
+    for h in MIXED_HOLDERS {
+        for with_serve in [false, true] {
+            let n_cli = 1 + rng.usize(3);
+            specs.push(mixed_spec(*h, n_cli, with_serve, window_ms, rng));
+        }
+    }
+    for h in SAME_OWNER_LIVE_HOLDERS {
+        let n_cli = 1 + rng.usize(2);
+        let with_serve = rng.bool();
+        specs.push(mixed_spec(*h, n_cli, with_serve, window_ms, rng));
+    }
+    let _ = cfg;
+    r.count("mp_mixed_directed_batches", 1);
+    mp_mixed_batch(r, idx, bin, specs);
+}
+
+/// random: one or two stores, any live holder, 0–3 clients; the quick tier cuts the observation window short
+fn mp_mixed_random(r: &mut Report, cfg: &Cfg, idx: u64, rng: &mut Rng, bin: &Path) {
+    let window_ms = cfg.tier.pick(2_500, 9_500);
+    let n_stores = cfg.tier.pick(2, 3);
+    let mut specs = Vec::new();
+    for _ in 0..n_stores {
+        let h = if rng.chance(3, 4) { *rng.pick(MIXED_HOLDERS) } else { *rng.pick(SAME_OWNER_LIVE_HOLDERS) };
+        let n_cli = rng.usize(4);
+        let with_serve = n_cli == 0 || rng.chance(2, 3);
+        specs.push(mixed_spec(h, n_cli, with_serve, window_ms, rng));
+    }
+    mp_mixed_batch(r, idx, bin, specs);
+}
+
 fn mp_case(r: &mut Report, cfg: &Cfg, idx: u64, rng: &mut Rng, bin: &Path) {
+    if rng.chance(1, cfg.tier.pick(9, 6)) {
+        mp_mixed_random(r, cfg, idx, rng, bin);
+        return;
+    }
     if rng.chance(1, 7) {
         let with_client = cfg.tier == crate::report::Tier::Thorough && rng.chance(1, 2);
         mp_stopped_incumbent_case(r, idx, rng, bin, with_client);
@@ -2177,68 +3140,209 @@ fn mp_case(r: &mut Report, cfg: &Cfg, idx: u64, rng: &mut Rng, bin: &Path) {
 
 // ---------------------------------------------------------------------------------------------
 
+thread_local! {
+    /// (sub-round number + 1 of the burst this thread takes part in, passed `auth.written` in the current attempt)
+    static BURST: Cell<(usize, bool)> = const { Cell::new((0, false)) };
+}
+
+/// Spin (then yield) until `cond` holds; false on watchdog.
+fn spin_until(cond: impl Fn() -> bool, timeout: Duration) -> bool {
+    let mut i = 0u32;
+    let t = Instant::now();
+    loop {
+        if cond() {
+            return true;
+        }
+        i = i.wrapping_add(1);
+        if i < 20_000 {
+            std::hint::spin_loop();
+        } else {
+            if t.elapsed() > timeout {
+                return false;
+            }
+            std::thread::yield_now();
+        }
+    }
+}
+
+struct BurstShared {
+    k: usize,
+    align: bool,
+    /// per sub-round: contenders that reached `auth.written` / returned without reaching it / returned Ok
+    at_written: Vec<std::sync::atomic::AtomicUsize>,
+    done: Vec<std::sync::atomic::AtomicUsize>,
+    oks: Vec<std::sync::atomic::AtomicUsize>,
+    // generation barrier (busy-waiting: a futex barrier wakes its waiters microseconds apart)
+    count: std::sync::atomic::AtomicUsize,
+    gen: std::sync::atomic::AtomicUsize,
+    broken: AtomicBool,
+    /// set by the group's first thread when the burst budget is used up
+    stop: AtomicBool,
+}
+
+impl BurstShared {
+    fn barrier(&self) -> bool {
+        let g = self.gen.load(Ordering::SeqCst);
+        if self.count.fetch_add(1, Ordering::SeqCst) + 1 == self.k {
+            self.count.store(0, Ordering::SeqCst);
+            self.gen.fetch_add(1, Ordering::SeqCst);
+        } else if !spin_until(|| self.gen.load(Ordering::SeqCst) != g || self.broken.load(Ordering::SeqCst), Duration::from_secs(10)) {
+            self.broken.store(true, Ordering::SeqCst);
+        }
+        !self.broken.load(Ordering::SeqCst)
+    }
+}
+
+/// (A0) tight bursts from the empty state. A group of K threads runs many sub-rounds, each on a fresh store: all
+/// start one acquire attempt together (busy-wait barrier), every `Ok` guard is kept until *all* attempts of the
+/// sub-round have returned (second barrier) — two `Ok`s in one sub-round are two simultaneous holders, whatever the
+/// timing. No delay is injected anywhere. Every other group additionally re-aligns the contenders at the last hook
+/// point inside the acquire step: a contender that reaches `auth.written` waits there until every other contender
+/// has either arrived too or has returned from its attempt, so that an un-hooked check-then-act window behind the
+/// record write is entered together (with an exclusive create only the winner gets there; it waits for the losers).
 fn burst_rounds(r: &mut Report, cfg: &Cfg) {
-    use std::sync::atomic::{AtomicI64, Ordering};
-    use std::sync::Barrier;
-    let rounds = cfg.tier.pick(120u64, 1500u64);
+    use std::sync::atomic::AtomicUsize;
+    let groups = cfg.tier.pick(8u64, 400u64);
+    let t_burst = Instant::now();
+    let burst_deadline = Instant::now() + Duration::from_secs_f64((cfg.budget_s * 0.2 - r.elapsed()).max(1.0));
     let s = sched();
     s.reset();
     let mut two = 0u64;
     let mut none = 0u64;
     let mut done = 0u64;
-    for round in 0..rounds {
-        if r.elapsed() > cfg.budget_s * 0.25 {
+    let mut aligned_rounds = 0u64;
+    let mut met_rounds = 0u64;
+    let mut direct_rounds = 0u64;
+    let mut broken_groups = 0u64;
+    for g in 0..groups {
+        if Instant::now() >= burst_deadline {
             break;
         }
-        let k = 2 + (round as usize % 5);
-        let store = Store::new("c18b");
-        let barrier = Arc::new(Barrier::new(k));
-        let holders = Arc::new(AtomicI64::new(0));
-        let max_seen = Arc::new(AtomicI64::new(0));
-        let acquired = Arc::new(AtomicI64::new(0));
-        let mut hs = Vec::new();
-        for _ in 0..k {
-            let (b, h, m, a) = (barrier.clone(), holders.clone(), max_seen.clone(), acquired.clone());
-            let data = store.data.clone();
-            let ws = store.ws.clone();
-            hs.push(std::thread::spawn(move || {
-                let rt = tokio::runtime::Builder::new_current_thread().enable_all().build();
-                b.wait();
-                let Ok(rt) = rt else { return };
-                // one direct attempt at the same instant, then (losers) the recovery loop is not needed:
-                // with a live holder it must simply fail
-                if let Ok(guard) = rt.block_on(ripd::verif_export::acquire_authority_lock_with_recovery(&data, &ws)) {
-                    a.fetch_add(1, Ordering::SeqCst);
-                    let n = h.fetch_add(1, Ordering::SeqCst) + 1;
-                    m.fetch_max(n, Ordering::SeqCst);
-                    std::thread::sleep(Duration::from_millis(12));
-                    h.fetch_sub(1, Ordering::SeqCst);
-                    drop(guard);
+        let align = g % 2 == 1;
+        // the recovery loop builds an HTTP client before its first attempt (milliseconds, jittery): groups that
+        // call the loop's first step `AuthorityLockGuard::try_acquire` directly are the tightly synchronised ones
+        let direct = g % 4 < 2;
+        let k = if align { 3 + (g as usize / 4 % 4) } else { 2 + (g as usize / 4 % 5) };
+        let per_group = if direct { 200usize } else { 12usize };
+        let stores: Vec<Store> = (0..per_group).map(|_| Store::new("c18b")).collect();
+        let sh = Arc::new(BurstShared {
+            k,
+            align,
+            at_written: (0..per_group).map(|_| AtomicUsize::new(0)).collect(),
+            done: (0..per_group).map(|_| AtomicUsize::new(0)).collect(),
+            oks: (0..per_group).map(|_| AtomicUsize::new(0)).collect(),
+            count: AtomicUsize::new(0),
+            gen: AtomicUsize::new(0),
+            broken: AtomicBool::new(false),
+            stop: AtomicBool::new(false),
+        });
+        {
+            let sh = sh.clone();
+            s.set_custom(Some(Arc::new(move |p, _ctx| {
+                if p != "auth.written" {
+                    return;
                 }
+                let (j1, passed) = BURST.with(|b| b.get());
+                if j1 == 0 || passed {
+                    return;
+                }
+                BURST.with(|b| b.set((j1, true)));
+                let j = j1 - 1;
+                sh.at_written[j].fetch_add(1, Ordering::SeqCst);
+                if sh.align {
+                    let ok = spin_until(
+                        || sh.at_written[j].load(Ordering::SeqCst) + sh.done[j].load(Ordering::SeqCst) >= sh.k || sh.broken.load(Ordering::SeqCst),
+                        Duration::from_secs(5),
+                    );
+                    if !ok {
+                        sh.broken.store(true, Ordering::SeqCst);
+                    }
+                }
+            })));
+        }
+        let paths: Arc<Vec<(PathBuf, PathBuf)>> = Arc::new(stores.iter().map(|st| (st.data.clone(), st.ws.clone())).collect());
+        let mut hs = Vec::new();
+        for t in 0..k {
+            let sh = sh.clone();
+            let paths = paths.clone();
+            hs.push(std::thread::spawn(move || {
+                let Ok(rt) = tokio::runtime::Builder::new_current_thread().enable_all().build() else {
+                    sh.broken.store(true, Ordering::SeqCst);
+                    return 0usize;
+                };
+                let mut completed = 0usize;
+                for (j, (data, ws)) in paths.iter().enumerate() {
+                    if t == 0 && Instant::now() >= burst_deadline {
+                        sh.stop.store(true, Ordering::SeqCst);
+                    }
+                    if !sh.barrier() || sh.stop.load(Ordering::SeqCst) {
+                        break;
+                    }
+                    BURST.with(|b| b.set((j + 1, false)));
+                    let res = if direct {
+                        ripd::AuthorityLockGuard::try_acquire(data, ws)
+                    } else {
+                        rt.block_on(ripd::verif_export::acquire_authority_lock_with_recovery(data, ws))
+                    };
+                    let passed = BURST.with(|b| b.get().1);
+                    BURST.with(|b| b.set((0, false)));
+                    if !passed {
+                        sh.done[j].fetch_add(1, Ordering::SeqCst);
+                    }
+                    if res.is_ok() {
+                        sh.oks[j].fetch_add(1, Ordering::SeqCst);
+                    }
+                    // every attempt of this sub-round has returned; all guards handed out are still alive
+                    if !sh.barrier() {
+                        break;
+                    }
+                    drop(res);
+                    completed = j + 1;
+                }
+                completed
             }));
         }
-        for h in hs {
-            let _ = h.join();
+        let completed = hs.into_iter().map(|h| h.join().unwrap_or(0)).min().unwrap_or(0);
+        s.set_custom(None);
+        if sh.broken.load(Ordering::SeqCst) {
+            broken_groups += 1;
         }
-        done += 1;
-        r.eval();
-        let m = max_seen.load(Ordering::SeqCst);
-        if m > 1 {
-            two += 1;
-            r.violation(
-                "C18/two_holders/barrier_burst_from_nothing",
-                &format!("{m} of {k} contenders released by a barrier on an empty store held the authority lock at the same time"),
-                json!({"part": "burst", "round": round, "contenders": k, "simultaneous_holders": m}),
-            );
-        }
-        if acquired.load(Ordering::SeqCst) == 0 {
-            none += 1;
+        for j in 0..completed {
+            done += 1;
+            r.eval();
+            let m = sh.oks[j].load(Ordering::SeqCst);
+            direct_rounds += direct as u64;
+            if align {
+                aligned_rounds += 1;
+                if sh.at_written[j].load(Ordering::SeqCst) >= 2 {
+                    met_rounds += 1;
+                }
+            }
+            if m > 1 {
+                two += 1;
+                r.violation(
+                    "C18/two_holders/barrier_burst_from_nothing",
+                    &format!("{m} of {k} contenders released by a barrier on an empty store held the authority lock at the same time"),
+                    json!({"part": "burst", "group": g, "sub_round": j, "contenders": k, "simultaneous_holders": m, "realigned_at_auth_written": align, "try_acquire_called_directly": direct}),
+                );
+            }
+            if m == 0 {
+                none += 1;
+            }
         }
     }
+    s.reset();
+    if broken_groups > 0 {
+        r.inconclusive(&format!("{broken_groups} burst group(s) cut short by the barrier watchdog (overloaded host)"));
+    }
     r.distinct_str("burst|nothing");
+    r.count("burst_wall_ms", t_burst.elapsed().as_millis() as u64);
     r.count("burst_rounds", done);
     r.count("burst_rounds_with_two_holders", two);
     r.count("burst_rounds_nobody_acquired", none);
+    r.count("burst_rounds_first_step_called_directly", direct_rounds);
+    r.count("burst_rounds_realigned_at_auth_written", aligned_rounds);
+    r.count("burst_rounds_two_contenders_met_at_auth_written", met_rounds);
 }
 
 pub fn run(cfg: &Cfg) -> i32 {
@@ -2249,13 +3353,18 @@ pub fn run(cfg: &Cfg) -> i32 {
          half-written / shapeless / split-UTF-8 lock, empty lock + dead meta, live pid lock (± meta), answering endpoint (live / \
          non-local pid)} × {directed rendezvous schedules at each read-then-rename pair, seeded noise at all auth.* points} with \
          1–6 contender threads running the real recovery loop; (B) multi-process: 2–12 real `rip serve` (+0–3 `rip tasks list` \
-         clients) started at once per leftover state with random RIP_VERIF_DELAY, winner SIGKILLed, round repeated. A case is \
+         clients) started at once per leftover state with random RIP_VERIF_DELAY, winner SIGKILLed, round repeated; (B2) \
+         every live / mixed-owner leftover {live lock + dead | other-live | corrupt meta, dead lock + answering live meta, real \
+         rip serve stopped between lock and meta (± dead meta), live lock (± meta), answering endpoint} × {1–3 rip clients \
+         alone, clients + 2–4 rip serve in two waves} with lock.json polled for byte identity while the owner lives. A case is \
          non-trivial when ≥2 contenders reached auth.* hook points (A) / the round was judged (B); distinct = distinct \
          (state, schedule, hook interleaving) resp. (state, #processes, #serving) shapes",
     );
     r.assume("hook points do not change behaviour beyond timing");
     r.assume("in-process contenders share one pid: a contender's lock can never look dead to another contender; dead-pid cleanup is triggered by planted leftovers only");
     r.assume("schedules are the directed rendezvous scripts plus what the OS scheduler and injected delays produce (not exhaustive)");
+    r.assume("a meta.json that does not belong to the live lock owner (dead pid, other pid, unparsable) may be removed by recovery, never replaced while the owner lives");
+    r.assume("an authority known only by an answering endpoint (lock of a dead pid) may be displaced when its endpoint misses a ping: such a takeover is judged only when the monitor's own pings were all answered within 100 ms");
     r.assume("bounded progress is judged as: somebody acquired before all loops returned, or (to rule out timing) one later uncontended attempt succeeds");
     let bin = rip_bin();
     let have_bin = bin.exists();
@@ -2273,7 +3382,11 @@ pub fn run(cfg: &Cfg) -> i32 {
         let idx = doc.pointer("/witness/case").and_then(|x| x.as_u64()).unwrap_or(0);
         let part = doc.pointer("/witness/part").and_then(|x| x.as_str()).unwrap_or("in_process").to_string();
         let mut rng = cfg.case_rng(idx);
-        if part == "multi_process" {
+        if part == "multi_process_mixed" && idx == MIXED_BATCH_CASE {
+            if have_bin {
+                mp_mixed_directed(&mut r, cfg, idx, &mut rng, &bin);
+            }
+        } else if part == "multi_process" || part == "multi_process_mixed" {
             if have_bin {
                 mp_case(&mut r, cfg, idx, &mut rng, &bin);
             }
@@ -2287,13 +3400,14 @@ pub fn run(cfg: &Cfg) -> i32 {
 
     // (A0) barrier bursts from the empty state: K contenders released at the same instant, no injected
     // delay anywhere (delays at hook points de-synchronise contenders; a window that contains no hook
-    // point — e.g. between an existence check and a rename — is only hit by truly simultaneous starts)
+    // point — e.g. between an existence check and a rename — is only hit by truly simultaneous starts);
+    // see burst_rounds for the sub-round / re-alignment scheme
     burst_rounds(&mut r, cfg);
 
     let max_cases = cfg.tier.pick(4_000u64, 2_000_000u64);
     let mp_every = cfg.tier.pick(9u64, 7u64);
     let mut idx = 0u64;
-    while idx < max_cases && (r.elapsed() < cfg.budget_s * 0.9 || idx < N_DIRECTED) {
+    while idx < max_cases && (r.elapsed() < cfg.budget_s * 0.9 || idx <= MIXED_BATCH_CASE) {
         let i = idx;
         idx += 1;
         if !cfg.mine(i) {
@@ -2305,6 +3419,10 @@ pub fn run(cfg: &Cfg) -> i32 {
             let out = run_inproc_case(&case, &mut rng);
             judge_inproc(&mut r, i, &case, &out);
             r.count("directed_schedules_run", 1);
+        } else if i == MIXED_BATCH_CASE {
+            if have_bin {
+                mp_mixed_directed(&mut r, cfg, i, &mut rng, &bin);
+            }
         } else if have_bin && (i - N_DIRECTED) % mp_every == mp_every - 1 {
             mp_case(&mut r, cfg, i, &mut rng, &bin);
         } else {
